@@ -20,8 +20,10 @@ CONSTANTS ReplyMode,          \* "pinned" | "deferred"
           Inflight,           \* set of in-flight message kinds B may have sent: subset of ConnKinds
           MaxInflight,        \* how many in-flight messages
           UserMsgs,           \* data messages A's user threads want to send during the exchange
-          KexinitTakesLock    \* TRUE: _send_kex_init clears clear_to_send under clear_to_send_lock (as the code does);
+          KexinitTakesLock,   \* TRUE: _send_kex_init clears clear_to_send under clear_to_send_lock (as the code does);
                               \* FALSE: it just clears the event (mutation): KEXINIT can overtake a user packet
+          UngatedUser         \* mutation: some user-level API (fire-and-forget global request, keepalive) writes its
+                              \* packet without consulting clear_to_send; FALSE: every user-level send goes through the gate
 
 Ends == {"A", "B"}
 Peer(e) == IF e = "A" THEN "B" ELSE "A"
@@ -76,7 +78,7 @@ AStartsKex ==
 
 \* a user thread of A sends channel data (_send_user_message): takes clear_to_send_lock, checks the event ...
 AUserPasses ==
-  /\ nUser < UserMsgs /\ cts["A"] /\ ~dead["A"] /\ ctsLock = "free"
+  /\ nUser < UserMsgs /\ (cts["A"] \/ UngatedUser) /\ ~dead["A"] /\ ctsLock = "free"
   /\ ctsLock' = "user"
   /\ UNCHANGED <<wire, sentKexinit, gotKexinit, sentNewkeys, gotNewkeys, cts, blocked, dead, deferred, out, nIn, nUser, requests, replies>>
 \* ... and only then writes the packet and releases the lock
